@@ -22,6 +22,7 @@ type Solver struct {
 	tmo   int
 	log   io.Writer
 	dead  bool
+	xs    *XSample
 }
 
 type Stats struct {
@@ -192,6 +193,9 @@ func (s *Solver) Check(pc []*Term, extra *Term) Answer {
 		return Sat
 	case "unsat":
 		s.stats.Unsat++
+		if s.xs != nil {
+			s.xs.offer(s.dump)
+		}
 		return Unsat
 	}
 	s.stats.Unknown++
